@@ -276,9 +276,57 @@ def r5_one_numbering(ctx):
     ctx.floor('C20.R5', 'places that number the domains', n, 2)
 
 
+def r6_boundary_checks_look_at_the_boundary(ctx):
+    ctx.rule('C20.R6', 'P12 decision audit: in validate() whether a label is rejected for its first / last character (DnsLabelViolations::InvalidStart / '
+             'InvalidEnd) is decided by that character alone: every boolean condition that governs the construction of the violation inside the '
+             'per-label code derives from `label.chars().next()` / `.last()`. A label-level flag ("this label has a parameter") among them exempts '
+             'the literal part of a templated label — `{sub}-.example.com` would be accepted although no host name can match it.')
+    from ..inline import inlined, closures_of
+    from ..govern import controlling_switches
+    v = ctx.need('C20.R6', 'validate', ctx.fb.body(CR, VALIDATE))
+    if v is None:
+        return
+    # judged in the function that holds the check (validate itself, or the per-label helper it was split into): `?` at the call site of a
+    # helper would make its error returns look like ways to go on
+    from .compiler_common import family_bodies
+    n = 0
+    for x in [y for y in family_bodies(ctx, CR, [VALIDATE]) if not y.is_promoted]:
+        defs = Defs(x)
+        for bb, j, st in x.all_assigns():
+            rv = st['rv']
+            if rv['k'] != 'agg' or rv.get('var') not in ('InvalidStart', 'InvalidEnd') or not strip_generics(rv.get('adt', '')).endswith('DnsLabelViolations'):
+                continue
+            n += 1
+            want = {'InvalidStart': ('next', 'nth', 'first', 'starts_with'), 'InvalidEnd': ('last', 'next_back', 'ends_with')}[rv['var']]
+            foreign = []
+            heads = [hb for hb, ht in x.calls() if (callee(ht) or '').split('::')[-1] in ('next', 'next_back') and hb in x.reachable(x.succ(hb))
+                     and x.dominates(hb, bb) and hb in x.reachable(x.succ(bb)) | {hb}]
+            for sb, w in controlling_switches(x, bb):
+                if 'enum' in w:
+                    continue
+                q = op_place(w['d'])
+                if q is None or x.locals[q['l']] != 'bool':
+                    continue
+                # only the conditions that let a label through WITHOUT the check: an outcome from which the violation is unreachable but the
+                # next label is (an earlier check that returns its own error is not a way around this one)
+                succs = list(dict.fromkeys([t_[1] for t_ in w['ts']] + [w['else']]))
+                goes_on = set(heads) | {ob for ob, _, os_ in x.all_assigns() if os_['lhs'] == {'l': 0} and os_['rv']['k'] == 'agg' and os_['rv'].get('var') == 'Ok'}
+                skips = [s_ for s_ in succs if bb not in x.reachable(s_, avoid=[sb]) and (x.reachable(s_, avoid=[sb, bb]) & goes_on)]
+                if not skips:
+                    continue
+                sl, _ = backward_slice(x, q['l'], defs)
+                names = {(c or '').split('::')[-1] for c, _, _ in slice_calls(sl)}
+                if not (names & set(want)):
+                    foreign.append(x.loc(sb))
+            ctx.ob('C20.R6', 'decided-by-the-character|%s' % rv['var'], not foreign, x.loc(bb, st),
+                   'conditions governing %s that do not derive from the inspected character: %s' % (rv['var'], foreign or 'none'))
+    ctx.floor('C20.R6', 'boundary violations constructed in validate', n, 2)
+
+
 def check(ctx):
     r1_validated_constructor(ctx)
     r2_one_pattern_source(ctx)
     r3_normalisation_agreement(ctx)
     r4_identifier_oracle(ctx)
     r5_one_numbering(ctx)
+    r6_boundary_checks_look_at_the_boundary(ctx)
